@@ -25,7 +25,7 @@ CHECKS = {
     'src/vec.c': ['C04', 'C07'], 'src/buf.c': ['C04', 'C07'], 'include/a/vec.h': ['C04'], 'include/a/buf.h': ['C04'],
     'src/que.c': ['C05', 'C07'], 'include/a/list.h': ['C05'], 'include/a/slist.h': ['C05'], 'include/a/que.h': ['C05'],
     'src/str.c': ['C06', 'C07', 'C18'], 'include/a/str.h': ['C06'], 'src/utf.c': ['C18', 'C06'],
-    'src/a.c': ['C04', 'C05', 'C06', 'C19'],
+    'src/a.c': ['C04', 'C05', 'C06', 'C16', 'C19'],
     'src/linalg_plu.c': ['C08'], 'src/linalg_ldl.c': ['C08'], 'src/linalg_llt.c': ['C08'], 'src/linalg.c': ['C09', 'C08'],
     'src/complex.c': ['C10'], 'include/a/complex.h': ['C10'],
     'src/math.c': ['C11', 'C19', 'C10'],
@@ -199,6 +199,10 @@ def run_one(slot, path, text, m, tag):
         for chk in CHECKS[path]:
             r = sh([os.path.join(VERIF, 'bin', 'check'), chk, 'quick'], cwd=VERIF, env=env, timeout=1800)
             rcs[chk] = r.returncode
+            if 'harness build failed' in r.stdout or 'library build failed' in r.stdout:
+                res['status'] = 'build-failed'  # the change does not compile for a user of that header / in that configuration
+                res['detail'] = chk
+                return res
             keys += [chk + ':' + k for k in re.findall(r'VIOLATION property=\S+ replay=\S+ key=(\S+)', r.stdout)][:6]
             if r.returncode == 1:
                 break  # caught; no need to run the other checks
